@@ -210,6 +210,25 @@ func runC01(c *Ctx) {
 			r.Bad("C01-V5", sw.U.Name+": campaign called outside hup and the pre-election continuation", sw.U.Pos(sw.S.Pos), "")
 		}
 	}
+	// V7: no election is started while a committed membership change is still unapplied (the voter
+	// set used for counting would be stale)
+	r.Clause("C01-V7", "no campaign while committed configuration changes are unapplied")
+	if u := c.unit("C01-V7", "raft.(*raft).hup"); u != nil {
+		sl := an.Call("raft.(*raftLog).slice")
+		r.ArgValues("C01-V7", u, sl, 0, []string{"(1 + recv.raftLog.applied)"}, 1)
+		r.ArgValues("C01-V7", u, sl, 1, []string{"(1 + recv.raftLog.committed)"}, 1)
+		r.ArgValues("C01-V7", u, sl, 2, []string{"raft.noLimit"}, 1)
+		r.Guard("C01-V7", u, an.Call("raft.(*raft).campaign"), "!(n != 0 && recv.raftLog.applied < recv.raftLog.committed)", an.GuardOpts{Min: 1})
+		r.StoreValues("C01-V7", u, an.LocalStore("n"), []string{"raft.numOfPendingConf(ents)"}, 1)
+		r.Order("C01-V7", u, an.Call("raft.(*raft).campaign"), []an.M{sl.Ok(an.NilErr)}, an.OrderOpts{Min: 1})
+	}
+	if u := c.unit("C01-V7", "raft.numOfPendingConf"); u != nil {
+		inc := an.LocalStore("n").Where("increment", func(u *an.Unit, s *an.Site) bool { return s.RHS == nil })
+		r.Guard("C01-V7", u, inc, "p0[i].Type == raftpb.EntryConfChange", an.GuardOpts{Min: 1})
+		// every conf-change entry is counted: the increment is reached whenever the type matches
+		rng := u.Match(an.M{}.Range())
+		r.Check("C01-V7", "raft.numOfPendingConf: scans all given entries", "", len(rng) == 1 && u.C.Term(rng[0].Rng.X) == "p0", "")
+	}
 	hupAll := c.W.AllSites(an.Call("raft.(*raft).hup"), "hup", nil)
 	r.Min("C01-V5", len(hupAll), 2, "calls of hup")
 	if u := c.unit("C01-V5", "raft.(*raft).tickElection"); u != nil {
